@@ -61,8 +61,8 @@ void Optimizer::add_inner(Parameter &param) {
     // Parameter object.
     return;
   }
-  params_.insert(&param);
   configure_parameter(param);
+  params_.insert(&param);
 }
 
 void Optimizer::add_inner(const Model &model) {
